@@ -248,17 +248,18 @@ def evaluate(case):
         lib = lib[order:] + lib[:order]
         r2 = jasm_io.compile_rule(jasm_io.make_doc(["mov", inv], macros=lib))
         ev.subcases = (ev.subcases or 0) + 1
+        names = [m_["name"] for m_ in lib]
+        invoked = next(k_ for k_ in inv if k_ in ("@ybeside_", "@yargs_", "@ystr_"))
+        # (a defined reference whose definition is listed before the invoked macro's has been expanded by the time the invocation
+        # replaces the node: what is dropped then is no reference any more, and an error about it need not name one)
+        expanded_before = kind == "defined" and names.index("@yother_") < names.index(invoked)
         if r2[0] == "ok":
             # (the defined reference counts as expanded if what it stands for is in the regex more often than the invocation alone puts it there)
-            names = [m_["name"] for m_ in lib]
-            invoked = next(k_ for k_ in inv if k_ in ("@ybeside_", "@yargs_", "@ystr_"))
-            # ... or if its definition is listed before the invoked macro's: its pass has walked the node and expanded the reference
-            # by the time the invocation replaces the node (what is dropped then is no reference any more)
-            expanded = kind == "defined" and ((shape != "beside-other-invocation" and "rol" in r2[1]) or names.index("@yother_") < names.index(invoked))
+            expanded = expanded_before or (kind == "defined" and shape != "beside-other-invocation" and "rol" in r2[1])
             if not expanded:
                 ev.dev("reference-neither-expanded-nor-reported" if kind != "undefined" else "unresolved-reference-compiled-silently",
                        fault="reference-beside-list-macro-invocation", reference=ref, shape=shape, invocation=inv, macros=lib, regex=r2[1][:300])
-        elif r2[0] == "exc" and ref not in r2[2]:
+        elif r2[0] == "exc" and ref not in r2[2] and not expanded_before:
             ev.dev("error-does-not-name-the-reference", fault="reference-beside-list-macro-invocation", expected=ref, shape=shape, error=list(r2[1:]))
     if fault == "control" and len(jasm_io.dump_yaml(case["factored"])) % 3 == 2:
         # every macro file that was supplied is missing / a directory at the moment it is read, the rule has no macros of its own:
